@@ -96,6 +96,9 @@ package cte
 //@   requires _this.config != nil && !_this.config.Debug.PassThroughPanics && reader != nil && eventReceiver != nil && pos <= inLen
 //@   modifies all
 //@   ensures err == nil ==> !rfailed
+// document size limit (C14): a stream that is accepted was read to its end and is no longer than
+// MaxDocumentSizeBytes - it is never cut to fit
+//@   ensures err == nil ==> pos == inLen && inLen - old(pos) <= old(_this.config.Rules.MaxDocumentSizeBytes)
 
 //@ func (*Decoder).DecodeDocument
 //@   requires _this.config != nil && !_this.config.Debug.PassThroughPanics && eventReceiver != nil
